@@ -29,7 +29,7 @@ impl CacheCase {
 }
 
 pub fn strategy(_t: Tier) -> BoxedStrategy<CacheCase> {
-    let run = (0usize..8, any::<u8>(), any::<bool>(), proptest::collection::vec((0u8..6, any::<u16>()), 1..8));
+    let run = (0usize..8, any::<u8>(), any::<bool>(), proptest::collection::vec((0u8..7, any::<u16>()), 1..8));
     (super::c12::calendar_strategy(), any::<u16>(), proptest::collection::vec(run, 1..=5)).prop_map(|((mut cal, edges, first, last), tix, runs)| {
         cal.junk_entries = false;
         // malformed observations are C12's business; here every day is either published or not
@@ -40,6 +40,8 @@ pub fn strategy(_t: Tier) -> BoxedStrategy<CacheCase> {
         let mut out = vec![];
         for (step, force, incl, looks) in runs {
             today = today + Duration::days([0i64, 1, 2, 7, 30, 200, 430, 3][step]);
+            // a seventh of the runs happen right at a year's end or start (time only moves forward)
+            if force % 7 == 3 { let edge = crate::fxfake::ymd(today.year(), 12, 29) + Duration::days((force / 7 % 6) as i64); if edge >= today && edge <= last + Duration::days(400) { today = edge; } }
             let mut lookups = vec![];
             for (kind, ix) in looks {
                 let d = match kind {
@@ -48,7 +50,8 @@ pub fn strategy(_t: Tier) -> BoxedStrategy<CacheCase> {
                     2 => today + Duration::days((ix % 3) as i64),                      // today / future
                     3 if !edges.is_empty() => edges[ix as usize % edges.len()],
                     4 => crate::fxfake::ymd(today.year() - (ix % 2) as i32, 1, 1) + Duration::days((ix % 6) as i64), // start of (previous) year
-                    _ => first + Duration::days(((ix as usize * ndays) >> 16) as i64),
+                    5 => first + Duration::days(((ix as usize * ndays) >> 16) as i64),
+                    _ => crate::fxfake::ymd(today.year() - (ix % 2) as i32, 12, 28) + Duration::days((ix / 2 % 7) as i64),     // end of (previous) year .. Jan 3
                 };
                 lookups.push(d);
             }
